@@ -12,6 +12,11 @@ func init() {
 		for _, pre := range []int{1, 2} {
 			jobs = append(jobs, &Job{Scenario: "c16.mpsc", Params: js(c16Params{Init: 2, Max: 8, Producers: []int{1, 1}, Preload: pre}), PB: 2, Shards: 8, BudgetS: 120, Terminat: true, Starve: 2600})
 		}
+		// maximum capacities that are not powers of two (the queue rounds them up): filled to the rounded maximum
+		// and beyond while the consumer lags
+		add(c16Params{Init: 2, Max: 6, Producers: []int{2, 1}, Preload: 9}, 1, 4, 60)
+		add(c16Params{Init: 4, Max: 12, Producers: []int{1, 1}, Preload: 17}, 1, 4, 60)
+		add(c16Params{Init: 4, Max: 5, Producers: []int{2}, Preload: 7}, 1, 4, 60)
 		if !thorough {
 			// growth 2 -> 4 with one chunk switch, 2 producers
 			add(c16Params{Init: 2, Max: 4, Producers: []int{2, 2}}, 2, 4, 60)
